@@ -3,6 +3,7 @@
 package keeper
 
 import (
+	stderrors "errors"
 	"math/big"
 
 	sdkmath "cosmossdk.io/math"
@@ -18,6 +19,11 @@ import (
 
 func init() {
 	vs.RegisterHarness("VerifC16Unstake", VerifC16Unstake)
+	vs.RegisterHarness("VerifC16Stake", VerifC16Stake)
+	vs.RegisterHarness("VerifC16SetLockedPower", VerifC16SetLockedPower)
+	vs.RegisterHarness("VerifC16DeactivateVault", VerifC16DeactivateVault)
+	vs.RegisterHarness("VerifC16StakingOps", VerifC16StakingOps)
+	vs.RegisterHarness("VerifC16LockIndex", VerifC16LockIndex)
 }
 
 // ---------------------------------------------------------------------------------------------------------------
@@ -429,3 +435,303 @@ func VerifC16Unstake() {
 		}
 	}
 }
+
+// ---------------------------------------------------------------------------------------------------------------
+// H2: MsgStake
+// ---------------------------------------------------------------------------------------------------------------
+
+// VerifC16Stake: one MsgStake of the actor (no cache context: a rejected Stake must not have written anything).
+func VerifC16Stake() {
+	e := c16Setup()
+	s := c16Build(e, c16Shape{nV: vs.Param("vaults"), freeBalances: true, allowedShapes: 3})
+
+	var mHas [2]bool
+	var mAmt [2]uint64
+	for d := 0; d < 2; d++ {
+		if vs.Bool("stake_has") {
+			mHas[d] = true
+			mAmt[d] = vs.U64("stake_amt")
+		}
+	}
+	msg := types.NewMsgStake(c16Addr(c16A), c16Coins(mHas, [2]sdkmath.Int{c16U(mAmt[0]), c16U(mAmt[1])}))
+	vs.Assume(msg.ValidateBasic() == nil)
+
+	_, err := NewMsgServerImpl(e.k).Stake(e.ctx, msg)
+
+	denomsAllowed := (!mHas[0] || s.allowed[0]) && (!mHas[1] || s.allowed[1]) // concrete
+	funded := vs.And(mAmt[0] <= s.bal[c16A][0], mAmt[1] <= s.bal[c16A][1])
+	vs.Assert("stake/accepted-iff-allowed-denoms-and-funded", (err == nil) == vs.And(denomsAllowed, funded))
+
+	mBig := [2]*big.Int{c16Big(mAmt[0]), c16Big(mAmt[1])}
+	if err != nil {
+		vs.Reach("rejected-denom", !denomsAllowed)
+		vs.Reach("rejected-funds", denomsAllowed)
+		e.assertUnchanged("stake-rejected", s)
+		return
+	}
+	vs.Reach("accepted", true)
+	vs.Reach("accepted-whole-balance", vs.And(mHas[0], mAmt[0] == s.bal[c16A][0]))
+	e.assertStake("stake", c16A, c16Add2(s.stakeBig(c16A), mBig))
+	e.assertStake("stake/bystander", c16B, s.stakeBig(c16B))
+	e.assertBalance("stake/taken-from-staker", c16Addr(c16A), c16Sub2(s.balBig(c16A), mBig))
+	e.assertBalance("stake/bystander-balance", c16Addr(c16B), s.balBig(c16B))
+	e.assertBalance("stake/module-holds-sum-of-stakes", venv.ModuleAddr(types.ModuleName),
+		c16Add2(c16Add2(s.stakeBig(c16A), s.stakeBig(c16B)), mBig))
+	for a := 0; a < 2; a++ {
+		e.assertLocksAndIndex("stake", a, s.lockHas[a], s.lockPow[a], s.nV)
+	}
+	e.assertVaults("stake", s.vExists, s.vActive, s.nV)
+	// staked power grows by exactly the staked amount (all staked denoms are allowed)
+	total, terr := e.k.GetTotalPower(e.ctx, c16Addr(c16A))
+	vs.Assert("stake/total-power", terr == nil &&
+		total.BigInt().Cmp(new(big.Int).Add(s.totalPower(c16A), new(big.Int).Add(mBig[0], mBig[1]))) == 0)
+}
+
+// ---------------------------------------------------------------------------------------------------------------
+// H3: SetLockedPower (the entry point of the vault-owning modules)
+// ---------------------------------------------------------------------------------------------------------------
+
+func VerifC16SetLockedPower() {
+	e := c16Setup()
+	s := c16Build(e, c16Shape{nV: vs.Param("vaults"), vaultNoLock: true, twoDelegs: true, allowedShapes: vs.Param("allowed_shapes")})
+
+	t := vs.Pick("target_vault", s.nV)
+	liquid := vs.Bool("liquid_staker_address")
+	addr := c16Addr(c16A)
+	if liquid {
+		addr = make(sdk.AccAddress, 32)
+		copy(addr, c16Addr(c16A))
+	}
+	// any integer in (-2^66, 2^66)
+	pAbs := vs.BigU("power", 66)
+	power := sdkmath.NewIntFromBigInt(pAbs)
+	negative := vs.Bool("negative_power")
+	if negative {
+		power = power.Neg()
+	}
+
+	err := e.k.SetLockedPower(e.ctx, addr, c16Vaults[t], power)
+
+	inRange := vs.And(power.BigInt().Sign() >= 0, power.BigInt().Cmp(c16Big(^uint64(0))) <= 0)
+	backed := power.BigInt().Cmp(s.totalPower(c16A)) <= 0
+	vaultOK := vs.Or(!s.vExists[t], s.vActive[t])
+	spec := vs.And(vs.And(!liquid, inRange), vs.And(backed, vaultOK))
+	vs.Assert("setlock/accepted-iff-not-liquid-uint64-backed-active", (err == nil) == spec)
+
+	if err != nil {
+		vs.Reach("rejected", true)
+		vs.Reach("rejected-liquid", liquid)
+		vs.Reach("rejected-not-uint64", vs.And(!liquid, !inRange))
+		vs.Reach("rejected-one-above-total-power", vs.And(vs.And(!liquid, inRange),
+			power.BigInt().Cmp(new(big.Int).Add(s.totalPower(c16A), big.NewInt(1))) == 0))
+		vs.Reach("rejected-inactive-vault", vs.And(vs.And(!liquid, inRange), vs.And(backed, !vaultOK)))
+		e.assertUnchanged("setlock-rejected", s)
+		return
+	}
+	vs.Reach("accepted", true)
+	vs.Reach("accepted-equal-total-power", power.BigInt().Cmp(s.totalPower(c16A)) == 0)
+	vs.Reach("accepted-creates-vault", !s.vExists[t])
+	vs.Reach("accepted-overwrites-lock", s.lockHas[c16A][t])
+	vs.Reach("accepted-power-above-2^63", power.BigInt().Cmp(c16Big(1<<63)) >= 0)
+	vs.Reach("accepted-zero-power", power.BigInt().Sign() == 0)
+
+	wantHas, wantPow := s.lockHas[c16A], s.lockPow[c16A]
+	wantHas[t], wantPow[t] = true, power.Uint64()
+	e.assertLocksAndIndex("setlock", c16A, wantHas, wantPow, s.nV)
+	e.assertLocksAndIndex("setlock/bystander", c16B, s.lockHas[c16B], s.lockPow[c16B], s.nV)
+	wantExists, wantActive := s.vExists, s.vActive
+	if !wantExists[t] {
+		wantExists[t], wantActive[t] = true, true
+	}
+	e.assertVaults("setlock", wantExists, wantActive, s.nV)
+	for a := 0; a < 2; a++ {
+		e.assertStake("setlock", a, s.stakeBig(a))
+	}
+	e.assertBalance("setlock/module-balance", venv.ModuleAddr(types.ModuleName), c16Add2(s.stakeBig(c16A), s.stakeBig(c16B)))
+	// the new lock is covered by the current total power and is what GetLockedPower reports
+	got, gerr := e.k.GetLockedPower(e.ctx, addr, c16Vaults[t])
+	vs.Assert("setlock/get-locked-power", gerr == nil && got.Equal(power))
+	total, _ := e.k.GetTotalPower(e.ctx, addr)
+	vs.Assert("setlock/lock-covered-by-total-power", total.GTE(power))
+}
+
+// ---------------------------------------------------------------------------------------------------------------
+// H4: DeactivateVault, then the lock check
+// ---------------------------------------------------------------------------------------------------------------
+
+func VerifC16DeactivateVault() {
+	e := c16Setup()
+	s := c16Build(e, c16Shape{nV: vs.Param("vaults"), vaultNoLock: true, allowedShapes: 1})
+	t := vs.Pick("target_vault", s.nV)
+
+	err := e.k.DeactivateVault(e.ctx, c16Vaults[t])
+
+	vs.Assert("deactivate/accepted-iff-exists-and-active", (err == nil) == (s.vExists[t] && vs.And(s.vActive[t], true)))
+	if err != nil {
+		vs.Reach("rejected-missing", !s.vExists[t])
+		vs.Reach("rejected-already-inactive", s.vExists[t])
+		e.assertUnchanged("deactivate-rejected", s)
+		return
+	}
+	vs.Reach("accepted", true)
+	after := *s
+	after.vActive[t] = false
+	e.assertUnchanged("deactivate", &after) // only the flag of the target changed; locks of the vault stay recorded
+
+	// a second attempt and a lock attempt are both refused: nothing reactivates the vault
+	vs.Assert("deactivate/twice-refused", e.k.DeactivateVault(e.ctx, c16Vaults[t]) != nil)
+	vs.Assert("deactivate/lock-into-inactive-refused", e.k.SetLockedPower(e.ctx, c16Addr(c16A), c16Vaults[t], sdkmath.ZeroInt()) != nil)
+	e.assertVaults("deactivate/still-inactive", after.vExists, after.vActive, s.nV)
+
+	// the deactivated vault no longer constrains: isValidPower(T) <=> T >= largest lock among the remaining active vaults
+	T := vs.BigU("candidate_total_power", 66)
+	ok := e.k.isValidPower(e.ctx, c16Addr(c16A), sdkmath.NewIntFromBigInt(T))
+	vs.Assert("deactivate/is-valid-power", ok == c16Geq(T, after.maxActiveLock(c16A)))
+	vs.Reach("freed-by-deactivation", s.lockHas[c16A][t] && vs.And(ok, !c16Geq(T, s.lockPow[c16A][t])))
+}
+
+// ---------------------------------------------------------------------------------------------------------------
+// H5: undelegate / redelegate / delegate through the staking hook sequence
+// ---------------------------------------------------------------------------------------------------------------
+
+func VerifC16StakingOps() {
+	e := c16Setup()
+	s := c16Build(e, c16Shape{nV: vs.Param("vaults"), twoDelegs: true, allowedShapes: vs.Param("allowed_shapes")})
+
+	op := vs.Pick("op", 3) // 0 undelegate, 1 redelegate, 2 delegate
+	v := vs.Pick("validator", 2)
+	amt := vs.U64("amount")
+	vs.Assume(amt > 0)
+	del := c16Addr(c16A)
+	shares := sdkmath.LegacyNewDecFromInt(c16U(amt))
+
+	snap := e.st.Snapshot()
+	cctx, write := e.ctx.CacheContext()
+	var err error
+	switch op {
+	case 0:
+		_, err = e.st.Undelegate(cctx, del, c16Val(v), shares)
+	case 1:
+		err = e.st.BeginRedelegation(cctx, del, c16Val(v), c16Val(1-v), shares)
+	default:
+		_, err = e.st.Delegate(cctx, del, c16U(amt), c16Val(v))
+	}
+	if err == nil {
+		write()
+	} else {
+		e.st.Restore(snap) // transaction rollback of the staking store
+	}
+
+	// ---- specification
+	pre := s.totalPower(c16A)
+	maxLock := s.maxActiveLock(c16A)
+	structural := true
+	var lowest, post *big.Int // lowest total power seen by a hook, total power after the operation
+	switch op {
+	case 0:
+		structural = s.delHas[c16A][v] && vs.And(amt <= s.delShares[c16A][v], true)
+		lowest = new(big.Int).Sub(pre, c16Big(amt))
+		post = lowest
+	case 1:
+		structural = s.delHas[c16A][v] && vs.And(amt <= s.delShares[c16A][v], true)
+		lowest = new(big.Int).Sub(pre, c16Big(amt)) // the source is unbonded (hook) before the destination is credited
+		post = pre
+	default:
+		lowest = new(big.Int).Add(pre, c16Big(amt))
+		post = lowest
+	}
+	covered := c16Geq(lowest, maxLock)
+	vs.Assert("staking/accepted-iff-well-formed-and-locks-covered", (err == nil) == vs.And(structural, covered))
+
+	// the restake module's own state never changes in a hook
+	for a := 0; a < 2; a++ {
+		e.assertLocksAndIndex("staking", a, s.lockHas[a], s.lockPow[a], s.nV)
+		e.assertStake("staking", a, s.stakeBig(a))
+	}
+	e.assertVaults("staking", s.vExists, s.vActive, s.nV)
+	e.assertBalance("staking/module-balance", venv.ModuleAddr(types.ModuleName), c16Add2(s.stakeBig(c16A), s.stakeBig(c16B)))
+
+	total, terr := e.k.GetTotalPower(e.ctx, del)
+	vs.Assert("staking/total-power-readable", terr == nil)
+	if err != nil {
+		vs.Reach("rejected", true)
+		vs.Reach("rejected-locked", structural)
+		vs.Reach("rejected-one-below-lock", vs.And(structural, new(big.Int).Add(lowest, big.NewInt(1)).Cmp(c16Big(maxLock)) == 0))
+		vs.Reach("rejected-full-removal", op == 0 && vs.And(structural, amt == s.delShares[c16A][v]))
+		vs.Reach("rejected-redelegation-although-total-unchanged", op == 1 && vs.And(structural, true))
+		vs.Reach("rejected-delegate", op == 2)
+		vs.Assert("staking/rejection-is-the-lock-error", vs.Implies(structural, errorsIs(err, types.ErrUnableToUndelegate)))
+		vs.Assert("staking/rejected-total-power-unchanged", total.BigInt().Cmp(pre) == 0)
+		return
+	}
+	vs.Reach("accepted", true)
+	vs.Reach("accepted-exactly-at-lock", vs.And(lowest.Cmp(c16Big(maxLock)) == 0, maxLock > 0))
+	vs.Reach("accepted-full-removal", op == 0 && vs.And(amt == s.delShares[c16A][v], true))
+	vs.Reach("accepted-full-removal-other-delegation-covers", op == 0 && s.delHas[c16A][1-v] && vs.And(amt == s.delShares[c16A][v], maxLock > 0))
+	vs.Reach("accepted-redelegation", op == 1)
+	vs.Reach("accepted-delegate", op == 2)
+	vs.Reach("accepted-inactive-vault-larger", s.lockHas[c16A][0] && vs.And(!s.vActive[0], !c16Geq(post, s.lockPow[c16A][0])))
+	vs.Assert("staking/total-power-after", total.BigInt().Cmp(post) == 0)
+	for k := 0; k < s.nV; k++ {
+		if s.lockHas[c16A][k] {
+			vs.Assert("staking/active-lock-covered", vs.Or(!s.vActive[k], c16Geq(total.BigInt(), s.lockPow[c16A][k])))
+		}
+	}
+	// bystander's delegation untouched
+	bt, _ := e.k.GetTotalPower(e.ctx, c16Addr(c16B))
+	vs.Assert("staking/bystander-power", bt.BigInt().Cmp(s.totalPower(c16B)) == 0)
+}
+
+// ---------------------------------------------------------------------------------------------------------------
+// H6: SetLock / DeleteLock index maintenance and the isValidPower kernel
+// ---------------------------------------------------------------------------------------------------------------
+
+func VerifC16LockIndex() {
+	e := c16Setup()
+	s := c16Build(e, c16Shape{nV: vs.Param("vaults"), vaultNoLock: true, allowedShapes: 1})
+	t := vs.Pick("target_vault", s.nV)
+	after := *s
+	if !after.vExists[t] { // R2: a lock is only ever written for an existing vault
+		after.vExists[t] = true
+		after.vActive[t] = vs.Bool("new_vault_active")
+		e.k.SetVault(e.ctx, types.NewVault(c16Vaults[t], after.vActive[t]))
+	}
+	switch vs.Pick("op", 3) {
+	case 0:
+		p := vs.U64("new_power")
+		e.k.SetLock(e.ctx, types.NewLock(c16Addr(c16A).String(), c16Vaults[t], c16U(p)))
+		after.lockHas[c16A][t], after.lockPow[c16A][t] = true, p
+		vs.Reach("set-overwrites", s.lockHas[c16A][t])
+		vs.Reach("set-same-power", s.lockHas[c16A][t] && vs.And(p == s.lockPow[c16A][t], true))
+		vs.Reach("set-power-above-2^63", p >= 1<<63)
+	case 1:
+		e.k.DeleteLock(e.ctx, c16Addr(c16A), c16Vaults[t])
+		after.lockHas[c16A][t], after.lockPow[c16A][t] = false, 0
+		vs.Reach("delete-existing", s.lockHas[c16A][t])
+		vs.Reach("delete-missing", !s.lockHas[c16A][t])
+	default:
+		// two writes in a row: the first index entry must not survive
+		p1, p2 := vs.U64("new_power_1"), vs.U64("new_power_2")
+		e.k.SetLock(e.ctx, types.NewLock(c16Addr(c16A).String(), c16Vaults[t], c16U(p1)))
+		e.k.SetLock(e.ctx, types.NewLock(c16Addr(c16A).String(), c16Vaults[t], c16U(p2)))
+		after.lockHas[c16A][t], after.lockPow[c16A][t] = true, p2
+		vs.Reach("set-twice-lower", p2 < p1)
+	}
+	e.assertUnchanged("lockindex", &after)
+
+	// the kernel: for ANY candidate total power
+	T := vs.BigU("candidate_total_power", 66)
+	ok := e.k.isValidPower(e.ctx, c16Addr(c16A), sdkmath.NewIntFromBigInt(T))
+	m := after.maxActiveLock(c16A)
+	vs.Assert("lockindex/is-valid-power-iff-covers-largest-active-lock", ok == c16Geq(T, m))
+	vs.Reach("valid-at-boundary", vs.And(ok, vs.And(T.Cmp(c16Big(m)) == 0, m > 0)))
+	vs.Reach("invalid-one-below", vs.And(!ok, new(big.Int).Add(T, big.NewInt(1)).Cmp(c16Big(m)) == 0))
+	vs.Reach("valid-above-2^64", vs.And(ok, T.Cmp(new(big.Int).Lsh(big.NewInt(1), 64)) >= 0))
+	vs.Reach("largest-lock-inactive-skipped", after.lockHas[c16A][0] && after.lockHas[c16A][1] &&
+		vs.And(vs.And(!after.vActive[0], after.vActive[1]), vs.And(after.lockPow[c16A][0] > after.lockPow[c16A][1], vs.And(ok, !c16Geq(T, after.lockPow[c16A][0])))))
+	// the bystander's locks never constrain the actor and vice versa
+	okB := e.k.isValidPower(e.ctx, c16Addr(c16B), sdkmath.NewIntFromBigInt(T))
+	vs.Assert("lockindex/bystander-is-valid-power", okB == c16Geq(T, after.maxActiveLock(c16B)))
+}
+
+func errorsIs(err, target error) bool { return stderrors.Is(err, target) }
